@@ -306,18 +306,23 @@ def run_batch(pid, tier, seed, runs=None, workers=None, deadline_s=None, want_di
     known_hit = {}
     seen_sigs = set()
     exit_code = 0
+    unreproducible = []
     for v in merged['violations']:
         sig = v['signature']
         if sig in seen_sigs:
             continue
-        seen_sigs.add(sig)
+        if len(unreproducible) >= 6:
+            break
         small, execs = shrink(mod, v['scenario'], v['oracle'], pid=pid)
         r = pristine_execute(mod, pid, small)
         if r['verdict'] != 'violation':
             small, r = v['scenario'], pristine_execute(mod, pid, v['scenario'])
         if r['verdict'] != 'violation':
-            print('HARNESS-ERROR property=%s violation at run %d did not re-execute (nondeterminism in the harness)' % (pid, v['idx']))
-            return 2, merged
+            # seen in a worker, not here: it depends on something outside the scenario (e.g. which addresses a worker's heap
+            # hands out). Not reportable as it stands; other sightings may be. If none is, the batch ends as a harness error.
+            unreproducible.append(v['idx'])
+            continue
+        seen_sigs.add(sig)
         sig2 = mod.signature(r.get('case', small), r)
         if sig2 in seen_sigs and sig2 != sig:
             continue
@@ -353,6 +358,9 @@ def run_batch(pid, tier, seed, runs=None, workers=None, deadline_s=None, want_di
         exit_code = 1
         if len(reported) >= 3:
             break
+    if unreproducible and not reported and not known_hit:
+        print('HARNESS-ERROR property=%s violation(s) at run %s did not re-execute outside the worker that saw them' % (pid, unreproducible[:5]))
+        return 2, merged
     for sig, k in sorted(known_hit.items()):
         print('KNOWN-FINDING: property=%s %s' % (pid, k.get('what', sig)))
 
